@@ -20,6 +20,10 @@
 // a FileAnnotationSet with one annotation, so that a controller method prints it and the status
 // is 100; `N` = what Module.ModuleDeps() returns for a file importing a file that does not exist
 // - as coded an *ImportNotExistError (status 100 through wrapError).
+//
+// The probe also answers `imp` lines (imports.go, part vii b): a whole module set given by its
+// sources goes through the real bufimage.BuildImage and ModuleDeps(), the errors they return through
+// the same extracted classification code.
 package main
 
 import (
@@ -262,6 +266,111 @@ func probeOne(via, notation string) (out string) {
 	return fmt.Sprintf("exit=%d printed=%d failure=%d", app.GetExitCode(final), printed, failure)
 }
 
+func unhex(s string) string {
+	if s == "-" {
+		return ""
+	}
+	b, err := hex.DecodeString(s)
+	if err != nil {
+		panic("bad hex " + s)
+	}
+	return string(b)
+}
+
+// classify runs an error value through the extracted classification code, as probeOne does;
+// at = file:line:col of the first annotation printed (json), "-" without one
+func classify(via string, ret error) (triple string, at string) {
+	var stdout, stderr bytes.Buffer
+	container := app.NewContainer(map[string]string{}, strings.NewReader(""), &stdout, &stderr)
+	if via == "c" {
+		c := &controller{container: container, fileAnnotationsToStdout: true, fileAnnotationErrorFormat: "json"}
+		c.handleFileAnnotationSetRetError(&ret)
+	}
+	printed := strings.Count(stdout.String(), "\n")
+	at = "-"
+	if printed > 0 {
+		var first struct {
+			Path         string
+			Start_line   int
+			Start_column int
+		}
+		if err := json.Unmarshal([]byte(strings.SplitN(stdout.String(), "\n", 2)[0]), &first); err != nil {
+			panic("annotation is not json: " + err.Error())
+		}
+		at = fmt.Sprintf("%s:%d:%d", hex.EncodeToString([]byte(first.Path)), first.Start_line, first.Start_column)
+	}
+	final := app.Run(context.Background(), container, func(context.Context, app.Container) error {
+		return wrapError(ret)
+	})
+	failure := 0
+	if stderr.Len() > 0 {
+		failure = 1
+	}
+	return fmt.Sprintf("%d:%d:%d", app.GetExitCode(final), printed, failure), at
+}
+
+// probeImp: "<importer>\t<name:source;…>" (hex) - a module set with these sources (names
+// below m1/ and m2/ = two modules of one workspace, otherwise one module); what
+// bufimage.BuildImage returns for it goes through a controller method + wrapError, what
+// ModuleDeps() of the importer's module returns goes through wrapError directly.
+func probeImp(arg string) (out string) {
+	defer func() {
+		if v := recover(); v != nil {
+			out = fmt.Sprintf("panic %v", v)
+		}
+	}()
+	f := strings.Split(arg, "\t")
+	if len(f) != 2 {
+		return "bad-line"
+	}
+	importer := unhex(f[0])
+	mods := map[string]map[string][]byte{}
+	var order []string
+	for _, e := range strings.Split(f[1], ";") {
+		ns := strings.SplitN(e, ":", 2)
+		name, src := unhex(ns[0]), unhex(ns[1])
+		mod := ""
+		if strings.HasPrefix(name, "m1/") || strings.HasPrefix(name, "m2/") {
+			mod, name = name[:2], name[3:]
+		}
+		if mods[mod] == nil {
+			mods[mod] = map[string][]byte{}
+			order = append(order, mod)
+		}
+		mods[mod][name] = []byte(src)
+	}
+	sort.Strings(order)
+	importerMod := ""
+	if strings.HasPrefix(importer, "m1/") || strings.HasPrefix(importer, "m2/") {
+		importerMod, importer = importer[:2], importer[3:]
+	}
+	var datas []bufmoduletesting.ModuleData
+	importerIdx := 0
+	for i, mod := range order {
+		if mod == importerMod {
+			importerIdx = i
+		}
+		datas = append(datas, bufmoduletesting.ModuleData{PathToData: mods[mod]})
+	}
+	ctx := context.Background()
+	moduleSet, err := bufmoduletesting.NewModuleSet(datas...)
+	if err != nil {
+		panic("probe module set: " + err.Error())
+	}
+	logger := slog.New(slog.NewTextHandler(io.Discard, nil))
+	_, buildErr := bufimage.BuildImage(ctx, logger, bufmodule.ModuleSetToModuleReadBucketWithOnlyProtoFiles(moduleSet))
+	build, at := "0:0:0", "-"
+	if buildErr != nil {
+		build, at = classify("c", buildErr)
+	}
+	deps := "0:0:0"
+	if _, depsErr := moduleSet.Modules()[importerIdx].ModuleDeps(); depsErr != nil {
+		deps, _ = classify("d", depsErr)
+	}
+	_ = importer
+	return "build=" + build + " at=" + at + " deps=" + deps
+}
+
 func main() {
 	sc := bufio.NewScanner(os.Stdin)
 	sc.Buffer(make([]byte, 1<<20), 1<<20)
@@ -271,6 +380,10 @@ func main() {
 		f := strings.SplitN(sc.Text(), "\t", 2)
 		if len(f) != 2 {
 			fmt.Fprintln(w, "bad-line")
+			continue
+		}
+		if f[0] == "imp" {
+			fmt.Fprintln(w, probeImp(f[1]))
 			continue
 		}
 		fmt.Fprintln(w, probeOne(f[0], f[1]))
@@ -294,6 +407,8 @@ func buildErrProbe(run *hx.Run) (string, error) {
 	imports := map[string]string{
 		"bufio": "bufio", "bytes": "bytes", "context": "context", "errors": "errors", "fmt": "fmt", "os": "os",
 		"strconv": "strconv", "strings": "strings", "sync": "sync",
+		"hex": "encoding/hex", "json": "encoding/json", "io": "io", "slog": "log/slog", "sort": "sort",
+		"bufimage": "github.com/bufbuild/buf/private/bufpkg/bufimage",
 		"connect":     "connectrpc.com/connect",
 		"bufmoduletesting": "github.com/bufbuild/buf/private/bufpkg/bufmodule/bufmoduletesting",
 		"app":         "github.com/bufbuild/buf/private/pkg/app",
@@ -358,6 +473,7 @@ func buildErrProbe(run *hx.Run) (string, error) {
 	if b, err := cmd.CombinedOutput(); err != nil {
 		return "", fmt.Errorf("go build of the error probe in %s: %v\n%s", dir, err, b)
 	}
+	errProbeExe = exe
 	return exe, nil
 }
 
